@@ -43,6 +43,8 @@ def setup(ctx):
     ctx.require("monitor", "responses_compared", 1500)
     ctx.require("monitor", "errors_expected_and_seen", 500)
     ctx.require("monitor", "l3_calls", 30)
+    ctx.require("monitor", "raw_mode_runs", 5000)
+    ctx.require("monitor", "l3_raw_mode_calls", 6)
 
 
 CAP = 10 * 1024 * 1024
@@ -116,7 +118,7 @@ def gen_stream(rng):
     return rng.choice([b"20 a/b\r\nxy", b"51 no\r\n", b"20\r\nhi", b"3\r\n", b"20 \r\n\xff", b"44 5\r\nz"]), "short", "n/a"
 
 
-def drive_l1(proto_kind, stream, cuts, termination, prefix_len=None):
+def drive_l1(proto_kind, stream, cuts, termination, prefix_len=None, decode_text=True):
     """termination: 'close' | 'reset'.  prefix_len: deliver only stream[:prefix_len]."""
     from nauyaca.client.protocol import GeminiClientProtocol, TitanClientProtocol
 
@@ -124,9 +126,9 @@ def drive_l1(proto_kind, stream, cuts, termination, prefix_len=None):
     try:
         fut = loop.create_future()
         if proto_kind == "gemini":
-            proto = GeminiClientProtocol("gemini://example.org/x", fut)
+            proto = GeminiClientProtocol("gemini://example.org/x", fut, **({} if decode_text else {"decode_text": False}))
         else:
-            proto = TitanClientProtocol("titan://example.org/x;size=3;mime=text/plain", b"abc", fut)
+            proto = TitanClientProtocol("titan://example.org/x;size=3;mime=text/plain", b"abc", fut, **({} if decode_text else {"decode_text": False}))
         tr = FakeTransport(loop, proto)
         loop.do(tr.attach)
         data = stream if prefix_len is None else stream[:prefix_len]
@@ -158,10 +160,13 @@ def drive_l1(proto_kind, stream, cuts, termination, prefix_len=None):
         close_loop(loop)
 
 
-def judge(ctx, label, cs_class, proto_kind, stream, cuts, termination, prefix_len, out, level="L1", extra=None):
+def judge(ctx, label, cs_class, proto_kind, stream, cuts, termination, prefix_len, out, level="L1", extra=None, decode_text=True):
     data = stream if prefix_len is None else stream[:prefix_len]
     clean = termination == "close"
-    kind, val = expected_client_result(data, clean, CAP)
+    kind, val = expected_client_result(data, clean, CAP, decode_text)
+    if not decode_text:
+        label += "+raw-mode"
+        ctx.count("monitor", "raw_mode_runs" if level == "L1" else "l3_raw_mode_calls")
     wit = {"level": level, "protocol": proto_kind, "stream": data, "stream_class": label, "cuts": list(cuts)[:20], "termination": termination,
            "prefix_len": prefix_len, "expected": (kind, val if kind != "response" else (val[0], val[1], val[2] if val[2] is None or len(val[2]) < 200 else f"<{len(val[2])}>")),
            "observed": out.get("result"), "fatal": out.get("fatal"), "loop_exceptions": out.get("loop_exceptions", [])[:2]}
@@ -228,10 +233,12 @@ def run_l1(ctx):
             if nlen <= 400:
                 segs.append(tuple(range(1, nlen)))
         first = None
+        # every fifth stream is read in raw mode (decode_text=False, the mode a relay uses)
+        dec = i % 5 != 3
         for cuts in segs:
             for termination in ("close", "reset"):
-                out = drive_l1(proto_kind, stream, cuts, termination)
-                v = judge(ctx, label, cs_class, proto_kind, stream, cuts, termination, None, out)
+                out = drive_l1(proto_kind, stream, cuts, termination, decode_text=dec)
+                v = judge(ctx, label, cs_class, proto_kind, stream, cuts, termination, None, out, decode_text=dec)
                 if termination == "close":
                     if first is None:
                         first = out.get("result")
@@ -367,14 +374,16 @@ def run_l3(ctx):
             url = f"gemini://127.0.0.1:{peer.port}/x"
             stalling = spec["stage"] == "stall"
             tmo = 1.0 if stalling else TIMEOUT
+            raw = (i // 5) % 3 == 2  # a third of the calls go through a client in raw mode (decode_text=False)
 
             async def go():
                 # clients are long-lived objects: the same one serves many calls (a fresh one every 25th)
-                key = (tmo, i // 25)
+                key = (tmo, raw, i // 25)
                 c = clients.get(key)
                 if c is None:
-                    clients.clear()
-                    c = clients[key] = GeminiClient(timeout=tmo, trust_on_first_use=False)
+                    if len(clients) > 6:
+                        clients.clear()
+                    c = clients[key] = GeminiClient(timeout=tmo, trust_on_first_use=False, **({"decode_text": False} if raw else {}))
                     ctx.count("monitor", "l3_client_objects")
                 if entry == "get":
                     return await c.get(url, follow_redirects=False)
@@ -424,7 +433,7 @@ def run_l3(ctx):
                               {"level": "L3", "entry": entry, "spec": {k: v for k, v in spec.items() if k != "stream"}, "stream": data, "result": res, "elapsed": round(dt, 2)})
             else:
                 judge(ctx, label, cs_class, proto_kind, data, spec.get("chunks") or (), term, None, out, level="L3",
-                      extra={"entry": entry, "elapsed": round(dt, 2), "spec": {k: v for k, v in spec.items() if k != "stream"}})
+                      extra={"entry": entry, "elapsed": round(dt, 2), "spec": {k: v for k, v in spec.items() if k != "stream"}}, decode_text=not raw)
             ctx.case(("L3", spec["stage"], spec["termination"], entry, label, res[0]), True,
                      sample={"level": "L3", "entry": entry, "stage": spec["stage"], "termination": spec["termination"], "stream": data[:60], "result": str(res)[:100]})
 
